@@ -60,8 +60,19 @@ def candidates(j, baseline):
     for b in gone:
         gone_sigs.setdefault(_sigkey(b.get('impl_self'), b.get('sig')), []).append(b['path'])
     out = set()
+    # a private trait that did not exist at the baseline (an extension trait on a foreign type, a helper trait) is a way to spell
+    # helper functions: its impl methods are spliced like private functions.  Crate-local traits are printed without a crate name;
+    # their first path segment is a module of this crate.
+    btraits = {b.get('impl_trait') for b in baseline if b.get('impl_trait')}
+    modules = {a['path'].split('::')[0] for a in j.get('adts', [])} | {f['path'].split('::')[0] for f in fns if not f['path'].startswith('<')}
     for f in fns:
-        if f['path'] in bpaths or f['kind'] == 'Closure' or f.get('impl_trait'):
+        if f['path'] in bpaths or f['kind'] == 'Closure':
+            continue
+        tr = f.get('impl_trait')
+        if tr:
+            if tr in btraits or tr.split('::')[0] not in modules or f.get('vis') == 'Public' or '{closure' in f['path']:
+                continue
+            out.add(f['path'])
             continue
         if '{closure' in f['path'] or f['path'].endswith('::{constant#0}'):
             continue
@@ -95,7 +106,10 @@ def _remap(x, loff, bmap):
             _remap(v, loff, bmap)
 
 
-def _splice(f, bi, callee):
+CLOSURE_CALLS = ('std::ops::Fn::call', 'std::ops::FnMut::call_mut', 'std::ops::FnOnce::call_once')
+
+
+def _splice(f, bi, callee, spread=False):
     """splice (an already flattened) callee into block bi of f; returns the caller-local index of the callee's return place"""
     blk = f['blocks'][bi]
     t = blk['term']
@@ -108,9 +122,22 @@ def _splice(f, bi, callee):
         f['locals'].append(l2)
     line = t.get('span', {}).get('l0', 0)
     # parameters
-    for k, a in enumerate(t['args']):
-        pl = {'l': loff + 1 + k, 'p': [], 'ty': callee['locals'][1 + k]['ty'] if 1 + k < len(callee['locals']) else ''}
-        blk['stmts'].append({'k': 'assign', 'place': pl, 'rv': {'k': 'use', 'op': copy.deepcopy(a)}, 'line': line})
+    if spread:
+        # `Fn::call(env, (a, b, ..))`: the closure body takes the environment and the tuple's fields as separate locals
+        env, tup = t['args'][0], t['args'][1]
+        pl = {'l': loff + 1, 'p': [], 'ty': callee['locals'][1]['ty']}
+        blk['stmts'].append({'k': 'assign', 'place': pl, 'rv': {'k': 'use', 'op': copy.deepcopy(env)}, 'line': line})
+        for k in range(callee['argc'] - 1):
+            ty = callee['locals'][2 + k]['ty']
+            pl = {'l': loff + 2 + k, 'p': [], 'ty': ty}
+            src = copy.deepcopy(tup['place'])
+            src['p'] = list(src['p']) + [{'k': 'field', 'i': k, 'name': str(k), 'ty': ty}]
+            src['ty'] = ty
+            blk['stmts'].append({'k': 'assign', 'place': pl, 'rv': {'k': 'use', 'op': {'k': 'move', 'place': src}}, 'line': line})
+    else:
+        for k, a in enumerate(t['args']):
+            pl = {'l': loff + 1 + k, 'p': [], 'ty': callee['locals'][1 + k]['ty'] if 1 + k < len(callee['locals']) else ''}
+            blk['stmts'].append({'k': 'assign', 'place': pl, 'rv': {'k': 'use', 'op': copy.deepcopy(a)}, 'line': line})
     cont = t['target']
     dest = t['dest']
     blk['term'] = {'k': 'goto', 'target': boff}
@@ -144,14 +171,119 @@ def _fn_refs(x, acc):
             _fn_refs(v, acc)
 
 
+AND_THEN = {'std::result::Result::<T, E>::and_then': 'Result', 'std::option::Option::<T>::and_then': 'Option'}
+
+
+def lower_and_then(j, baseline):
+    """`dest = r.and_then(f)` becomes the match it abbreviates: a switch on r's discriminant, a call of f on the payload in the
+    success arm, the failure rebuilt in the other -- so that the test is a guard like the one `f(r?)` gives.  Functions that used
+    `and_then` at the baseline keep their form (the rules read them as they are)."""
+    keep = set((baseline or {}).get('and_then_parents', []))
+    local_fns = {f['path'] for f in j['fns'] if f['label'] == 'fn'}
+    n = 0
+    for f in j['fns']:
+        if f['label'] != 'fn' or f['path'].split('::{closure')[0] in keep:
+            continue
+        closure_of = {}
+        for b in f['blocks']:
+            for s_ in b['stmts']:
+                if s_['k'] == 'assign' and not s_['place']['p'] and s_['rv']['k'] == 'aggregate' and s_['rv']['kind'].get('a') == 'closure':
+                    closure_of[s_['place']['l']] = s_['rv']['kind']['path']
+        for b in list(f['blocks']):
+            t = b['term']
+            if t['k'] != 'call' or b.get('cleanup') or t['func'].get('def') not in AND_THEN or len(t['args']) != 2 or t.get('target') is None:
+                continue
+            kind = AND_THEN[t['func']['def']]
+            r, fo = t['args']
+            if r.get('k') not in ('move', 'copy') or r['place']['p']:
+                continue
+            g = t['func'].get('gargs', [])
+            # the callee: a function item (its resolved path is spelled in the item type) or a closure value
+            func, args_tail = None, None
+            if fo.get('k') == 'const' and 'fn' in fo:
+                m = re.search(r'\{(.+)\}$', fo.get('ty', ''))
+                res = m.group(1) if m else fo['fn']
+                func = {'def': fo['fn'], 'krate': '', 'local': res in local_fns, 'gargs': fo.get('fn_args', []), 'trait': '', 'res': res,
+                        'res_krate': '', 'res_local': res in local_fns, 'res_kind': 'Item'}
+            elif fo.get('k') in ('move', 'copy') and not fo['place']['p'] and fo['place']['l'] in closure_of:
+                cp = closure_of[fo['place']['l']]
+                func = {'def': 'std::ops::FnOnce::call_once', 'krate': 'core', 'local': False, 'gargs': [], 'trait': 'std::ops::FnOnce', 'res': cp,
+                        'res_krate': '', 'res_local': cp in local_fns, 'res_kind': 'Item'}
+            if func is None or len(g) < 2:
+                continue
+            rl = r['place']['l']
+            tpay = g[0]
+            nl = len(f['locals'])
+            f.setdefault('orig_nlocals', nl)
+            line = t.get('span', {}).get('l0', 0)
+
+            def newlocal(ty):
+                f['locals'].append({'i': len(f['locals']), 'ty': ty, 'name': None, 'mut': True})
+                return len(f['locals']) - 1
+            proto = dict(f['locals'][rl])
+            ld = newlocal('isize')
+            lp = newlocal(tpay)
+            nb = len(f['blocks'])
+            b_ok, b_bad, b_un = nb, nb + 1, nb + 2
+            ok_variant, ok_idx, bad_variant, bad_idx = ('Ok', 0, 'Err', 1) if kind == 'Result' else ('Some', 1, 'None', 0)
+            b['stmts'].append({'k': 'assign', 'place': {'l': ld, 'p': [], 'ty': 'isize'}, 'rv': {'k': 'discr', 'place': {'l': rl, 'p': [], 'ty': r['place']['ty']}}, 'line': line})
+            b['term'] = {'k': 'switch', 'discr': {'k': 'move', 'place': {'l': ld, 'p': [], 'ty': 'isize'}}, 'arms': [[str(ok_idx), b_ok], [str(bad_idx), b_bad]], 'otherwise': b_un, 'span': t.get('span')}
+            pay = {'l': rl, 'p': [{'k': 'downcast', 'variant': ok_variant, 'i': ok_idx}, {'k': 'field', 'i': 0, 'name': '0', 'ty': tpay}], 'ty': tpay}
+            ok_stmts = [{'k': 'assign', 'place': {'l': lp, 'p': [], 'ty': tpay}, 'rv': {'k': 'use', 'op': {'k': 'move', 'place': pay}}, 'line': line}]
+            if func['def'] == 'std::ops::FnOnce::call_once':
+                lt = newlocal('(%s,)' % tpay)
+                ok_stmts.append({'k': 'assign', 'place': {'l': lt, 'p': [], 'ty': '(%s,)' % tpay}, 'rv': {'k': 'aggregate', 'kind': {'a': 'tuple'},
+                                 'ops': [{'k': 'move', 'place': {'l': lp, 'p': [], 'ty': tpay}}]}, 'line': line})
+                cargs = [copy.deepcopy(fo), {'k': 'move', 'place': {'l': lt, 'p': [], 'ty': '(%s,)' % tpay}}]
+            else:
+                cargs = [{'k': 'move', 'place': {'l': lp, 'p': [], 'ty': tpay}}]
+            call = dict(t)
+            call['func'] = func
+            call['args'] = cargs
+            f['blocks'].append({'i': b_ok, 'cleanup': False, 'stmts': ok_stmts, 'term': call})
+            if kind == 'Result':
+                terr = g[1]
+                le = newlocal(terr)
+                errp = {'l': rl, 'p': [{'k': 'downcast', 'variant': 'Err', 'i': 1}, {'k': 'field', 'i': 0, 'name': '0', 'ty': terr}], 'ty': terr}
+                bad_stmts = [{'k': 'assign', 'place': {'l': le, 'p': [], 'ty': terr}, 'rv': {'k': 'use', 'op': {'k': 'move', 'place': errp}}, 'line': line},
+                             {'k': 'assign', 'place': copy.deepcopy(t['dest']), 'rv': {'k': 'aggregate', 'kind': {'a': 'adt', 'path': 'std::result::Result', 'variant': 'Err', 'vidx': 1,
+                              'fields': ['0'], 'union_field': -1}, 'ops': [{'k': 'move', 'place': {'l': le, 'p': [], 'ty': terr}}]}, 'line': line}]
+            else:
+                bad_stmts = [{'k': 'assign', 'place': copy.deepcopy(t['dest']), 'rv': {'k': 'aggregate', 'kind': {'a': 'adt', 'path': 'std::option::Option', 'variant': 'None', 'vidx': 0,
+                              'fields': [], 'union_field': -1}, 'ops': []}, 'line': line}]
+            f['blocks'].append({'i': b_bad, 'cleanup': False, 'stmts': bad_stmts, 'term': {'k': 'goto', 'target': t['target']}})
+            f['blocks'].append({'i': b_un, 'cleanup': False, 'stmts': [], 'term': {'k': 'unreachable'}})
+            n += 1
+    return n
+
+
 def inline_new_helpers(j):
     """returns {'spliced': {caller: [callee..]}, 'removed': [..]}; mutates j"""
     baseline = load_baseline()
+    if baseline:
+        lower_and_then(j, baseline)
     cands = candidates(j, baseline)
     info = {'candidates': sorted(cands), 'spliced': {}, 'removed': []}
-    if not cands:
-        return info
     fns = {f['path']: f for f in j['fns'] if f['label'] == 'fn'}
+    # closures that are called directly (`let fail = |m| Err(..); return fail(..)`) are local helper functions: spliced at the call,
+    # except in the functions that already called closures directly at the baseline (the rules read those as they are)
+    keep_parents = set((baseline or {}).get('direct_closure_parents', [])) if baseline else None
+    ccands = set()
+    if keep_parents is not None:
+        for f in j['fns']:
+            if f['label'] != 'fn':
+                continue
+            for b in f['blocks']:
+                t = b['term']
+                if t['k'] == 'call' and t['func'].get('def') in CLOSURE_CALLS and t['func'].get('res_local') and '{closure' in (t['func'].get('res') or ''):
+                    res = t['func']['res']
+                    root = res.split('::{closure')[0]
+                    if root not in keep_parents and res in fns and fns[res]['kind'] == 'Closure' and len(t['args']) == 2 \
+                            and t['args'][1].get('k') in ('move', 'copy'):
+                        ccands.add(res)
+    info['closure_candidates'] = sorted(ccands)
+    if not cands and not ccands:
+        return info
     done, busy = set(), set()
 
     def flatten(path):
@@ -168,6 +300,12 @@ def inline_new_helpers(j):
                     flatten(res)
                     if res in done:
                         _splice(f, bi, fns[res])
+                        info['spliced'].setdefault(path, []).append(res)
+                elif t['func'].get('res_local') and res in ccands and t['func'].get('def') in CLOSURE_CALLS and res not in busy and not f['blocks'][bi]['cleanup'] \
+                        and len(t['args']) == 2 and t['args'][1].get('k') in ('move', 'copy'):
+                    flatten(res)
+                    if res in done:
+                        _splice(f, bi, fns[res], spread=True)
                         info['spliced'].setdefault(path, []).append(res)
             bi += 1
         busy.discard(path)
